@@ -27,6 +27,13 @@ pub fn run(rng: &mut Rng, out: &mut Fails) {
             if !close(a, want / c0, tol) { fail(out, "acf", "C13.acf.ratio", format!("{} k={}", inp, k), format!("{}", a), format!("{}", want / c0)); }
             if a.abs() > 1. + 1e-12 { fail(out, "acf", "C13.acf.bound", format!("{} k={}", inp, k), format!("{}", a), "|acf| <= 1".into()); }
         }
+        // lags beyond the series length: the estimator is an empty sum (0), never a panic
+        for k in [n as i32, n as i32 + 1, -(n as i32) - 5, 2 * n as i32] {
+            match catch(|| (acovf(&ts, k), acf(&ts, k))) {
+                None => fail(out, "acovf", "C13.acovf.def", format!("{} k={} (|k| >= n)", inp, k), "panic".into(), "0".into()),
+                Some((g, a)) => if g != 0. || a != 0. { fail(out, "acovf", "C13.acovf.def", format!("{} k={} (|k| >= n)", inp, k), format!("{} / {}", g, a), "0".into()) },
+            }
+        }
         if !close(acf(&ts, 0), 1., 1e-12) { fail(out, "acf", "C13.acf.lag0", inp.clone(), format!("{}", acf(&ts, 0)), "1".into()); }
         // differencing inverts cumulative summation
         let d = difference(ts.clone());
